@@ -594,7 +594,7 @@ ALIAS_USERS_COLL = [
     lambda r: ["put", "if (is_map($m)) { $m[\"tags\"][2] .= \"x\" }"],
     lambda r: ["put", "if (is_map($n)) { $n[\"hits\"] = -1 }"],
     lambda r: ["put", "for (k, v in $*) { if (is_map(v)) { $[k][\"mark\"] = NR } }"],
-    lambda r: ["sort-within-records", "-r"],
+    lambda r: ["sort-within-records"],  # not -r: it takes an optional regex and would swallow a file name that follows
     lambda r: ["flatten"],
     lambda r: ["cat"],
 ]
